@@ -73,7 +73,8 @@ func wakeCase(c *vlib.Ctx, kind int, i int, r *vlib.Rand) {
 	// whose eviction loop had to be aborted) ends the case
 	putBounded := func(force bool, lane int, v interface{}) (bool, bool) {
 		res := new(bool) // written by the call's goroutine, read only if it came back
-		o := guardCall(curWatchdog(), func() {
+		wd := curWatchdog()
+		o := guardCall(wd, func() {
 			if force {
 				*res = q.putForce(lane, v)
 			} else {
@@ -89,7 +90,7 @@ func wakeCase(c *vlib.Ctx, kind int, i int, r *vlib.Rand) {
 		}
 		if !o.Returned {
 			atomic.AddInt32(&stallsSeen, 1)
-			c.Inconclusive(caseID, fmt.Sprintf("%s%d did not return within the watchdog %v; goroutine abandoned", name, lane+1, watchdog))
+			c.Inconclusive(caseID, fmt.Sprintf("%s%d did not return within the watchdog %v; goroutine abandoned", name, lane+1, wd))
 			noteSectionStall(c, section, caseID)
 			return false, false
 		}
